@@ -33,8 +33,8 @@ type kase struct {
 // at the first one. After maxRunStalls hits of the runSync/op watchdogs the cases stop at their next
 // drain; after maxLiveStalls hits of the settle watchdog the live cases stop at their next settle.
 const (
-	maxRunStalls  = 4
-	maxLiveStalls = 3
+	maxRunStalls  = 3
+	maxLiveStalls = 2
 )
 
 func begin(r *hk.Run, label string) *kase {
